@@ -1,6 +1,6 @@
 """C14 - CellML 1.0/1.1 documents are faithfully transformed in permissive mode (structural clauses)."""
 from facts import walk, render, role, is_call, AnalysisBroken
-from engines import ff, nth_arg, receiver, enclosing_conditions
+from engines import render_x, ff, nth_arg, receiver, enclosing_conditions
 import issues
 
 LEVEL = ('Rules over parser.cpp (clang AST/CFG): (S) in strict mode a non-2.0 root is refused with an issue before any child is loaded; (L) on every path on which the parser is known to be in 1.x mode an added issue has been given Level::MESSAGE '
@@ -31,7 +31,7 @@ def run(F, rep):
     for iff in lm.walk():
         if iff.get('k') == 'If':
             cnd = role(iff, 'cond')
-            t = render(cnd)
+            t = render_x(lm, cnd)
             if 'mParser->isStrict() && !mParsing20Version' in t:
                 thn = role(iff, 'then')
                 has_ret = any(r.get('k') == 'Return' for r in walk(thn))
